@@ -15,7 +15,7 @@ import (
 func mboxRoot() string {
 	d, err := os.MkdirTemp("", "verif-mbox")
 	symAssume(err == nil)
-	return path.Join(d, "a", "b", "mbox")
+	return path.Join(d, "a", "b", "a") // last component "a": sibling names such as "aa" are expressible over the path alphabet
 }
 
 func mkMessage(mid, to, cc string, p2pOnly bool, body string) *fbb.Message {
@@ -128,10 +128,14 @@ func H_c10_step() {
 			deferred[i] = true
 		}
 	}
-	restart := symInt(0, 1) == 1
-	if restart {
-		// a fresh handler on the same directory: deferrals are gone
+	switch symInt(0, 2) {
+	case 1:
+		// restart: a fresh handler on the same directory, deferrals are gone
 		h = NewDirHandler(root, sendOnly)
+		symAssume(h.Prepare() == nil)
+		deferred = [3]bool{}
+	case 2:
+		// next session on the same handler instance: a deferral lasts for one session
 		symAssume(h.Prepare() == nil)
 		deferred = [3]bool{}
 	}
@@ -369,7 +373,7 @@ func H_c11_crash() {
 	symAssume(otherRaw != nil)
 
 	op := symInt(0, 3)
-	k := symInt(1, 2) // which mutating call of the operation is interrupted
+	k := symInt(1, symParam("KMAX", 4)) // which mutating call of the operation is interrupted
 	newIn := mkMessage(mids[0], "N0CALL", "", false, "the message being received when the crash happens\r\n")
 	wantIn, _ := func() ([]byte, error) {
 		c := mkMessage(mids[0], "N0CALL", "", false, "the message being received when the crash happens\r\n")
